@@ -208,8 +208,85 @@ def _strip_logging(tree):
             setattr(node, field, kept)
 
 
+def _inline_temps(tree):
+    """Normal form for single-use temporaries: `v = e` immediately followed by a simple statement that reads v exactly
+    once (v bound once and read once in the whole function, the read not under and/or, a conditional expression, a
+    comprehension or a lambda, and no call evaluated in that statement before the read) becomes that statement with e in
+    place of v.  The substitution preserves behaviour, so `t = f(x); g(t)` and `g(f(x))` are one program to every rule."""
+    simple = (ast.Assign, ast.Expr, ast.Return, ast.AugAssign)
+    barrier = (ast.Lambda, ast.ListComp, ast.SetComp, ast.DictComp, ast.GeneratorExp, ast.BoolOp, ast.IfExp, ast.FunctionDef, ast.AsyncFunctionDef, ast.ClassDef)
+
+    def eval_order(st):
+        parts = []
+        if isinstance(st, ast.Assign):
+            parts = [st.value] + list(st.targets)
+        elif isinstance(st, ast.AugAssign):
+            parts = [st.target, st.value]
+        elif isinstance(st, (ast.Expr, ast.Return)):
+            parts = [st.value] if st.value is not None else []
+        out = []
+
+        def rec(n, blocked):
+            b2 = blocked or isinstance(n, barrier)
+            for ch in ast.iter_child_nodes(n):
+                rec(ch, b2)
+            out.append((n, blocked))
+
+        for p_ in parts:
+            rec(p_, False)
+        return out
+
+    for fn in [n for n in ast.walk(tree) if isinstance(n, (ast.FunctionDef, ast.AsyncFunctionDef))]:
+        changed = True
+        rounds = 0
+        while changed and rounds < 20:
+            changed = False
+            rounds += 1
+            loads, stores, declared = {}, {}, set()
+            for x in ast.walk(fn):
+                if isinstance(x, ast.Name):
+                    d = loads if isinstance(x.ctx, ast.Load) else stores
+                    d[x.id] = d.get(x.id, 0) + 1
+                elif isinstance(x, (ast.Global, ast.Nonlocal)):
+                    declared |= set(x.names)
+                elif isinstance(x, ast.arg):
+                    declared.add(x.arg)
+                elif isinstance(x, ast.ExceptHandler) and x.name:
+                    declared.add(x.name)
+            for node in ast.walk(fn):
+                for field in ("body", "orelse", "finalbody"):
+                    blk = getattr(node, field, None)
+                    if not (isinstance(blk, list) and blk and isinstance(blk[0], ast.stmt)):
+                        continue
+                    i = 0
+                    while i + 1 < len(blk):
+                        a, b = blk[i], blk[i + 1]
+                        ok = isinstance(a, ast.Assign) and len(a.targets) == 1 and isinstance(a.targets[0], ast.Name) and isinstance(b, simple)
+                        if ok:
+                            nm = a.targets[0].id
+                            ok = nm not in declared and stores.get(nm) == 1 and loads.get(nm) == 1
+                        if ok:
+                            order = eval_order(b)
+                            use = [k for k, (n_, blocked) in enumerate(order) if isinstance(n_, ast.Name) and n_.id == nm and isinstance(n_.ctx, ast.Load)]
+                            ok = len(use) == 1 and not order[use[0]][1] and not any(isinstance(n_, (ast.Call, ast.Await, ast.Yield, ast.YieldFrom, ast.NamedExpr)) for n_, _ in order[: use[0]])
+                        if ok:
+                            target = order[use[0]][0]
+                            val = a.value
+
+                            class R(ast.NodeTransformer):
+                                def visit_Name(self, n_):
+                                    return val if n_ is target else n_
+
+                            blk[i + 1] = R().visit(b)
+                            del blk[i]
+                            changed = True
+                            loads[nm] = 0
+                            continue
+                        i += 1
+
+
 class Program:
-    def __init__(self, repo: str = "/repo", overrides: Optional[Dict[str, str]] = None, strip_logging: bool = False):
+    def __init__(self, repo: str = "/repo", overrides: Optional[Dict[str, str]] = None, strip_logging: bool = False, inline_temps: bool = False):
         """`overrides` maps repo-relative paths to replacement source text
         (in-memory scratch variants used by the mutation self-test).
         `strip_logging` removes effect-free module-logger statements from every
@@ -217,6 +294,7 @@ class Program:
         where log lines sit (C20, which types the log calls too, keeps them)."""
         self.overrides = overrides or {}
         self.strip_logging = strip_logging
+        self.inline_temps = inline_temps
         self.repo = os.path.abspath(repo)
         self.pkgdir = os.path.join(self.repo, PKG)
         self.modules: Dict[str, ModuleInfo] = {}
@@ -255,6 +333,8 @@ class Program:
                     raise AnalysisError(f"cannot parse {rel}: {e}")
                 if self.strip_logging:
                     _strip_logging(tree)
+                if self.inline_temps:
+                    _inline_temps(tree)
                 m = ModuleInfo(modname, path, rel, source, tree, is_pkg)
                 self.modules[modname] = m
                 self._index_module(m)
